@@ -279,6 +279,19 @@ def run(R):
     with R.guard('C07.R4'):
         C01.run_codec_tables(R, tonic, tag='@C07', rule='C07.R4')
 
+    R.describe('C07.R5', 'the body adapter of Streaming::new hands every byte of each data buffer to the decoder: copy_to_bytes(buf.remaining()) (a first-chunk-only copy loses bytes of non-contiguous buffers)')
+    with R.guard('C07.R5'):
+        sn = tonic.body('codec::decode::Streaming::<T>::new')
+        cl = [c for c in tonic.bodies if c.path.startswith(sn.path + '::') and c.kind == 'closure']
+        cps = [(c, bb, t) for c in cl for bb, t in c.calls(name='copy_to_bytes')]
+        okc = len(cps) == 1 and is_call(strip_refs(cps[0][0].origin(cps[0][2]['args'][1])), name='remaining')
+        R.check(okc, 'C07.R5', 'adapter-copies-whole-buffer', site(cps[0][0], cps[0][1]) if cps else site(sn), 'frame.map_data(|mut buf| buf.copy_to_bytes(buf.remaining())): %r' % okc)
+        chunks = [short(c.path) for c in cl for bb, t in c.calls(name='chunk')]
+        R.check(not chunks, 'C07.R5', 'adapter-no-first-chunk-only', site(sn), 'Buf::chunk() used in the adapter (only the first contiguous chunk): %r' % chunks)
+        pt = tonic.body('decode::StreamingInner::poll_frame')
+        put = pt.calls(name='put')
+        R.check(len(put) == 1 and mentions_call(pt.origin(put[0][1]['args'][1]), name='into_data'), 'C07.R5', 'whole-frame-appended', site(pt), 'self.buf.put(frame.into_data()) appends the whole data frame')
+
     # ---------------------------------------------------------------- R3 errors are values
     R.describe('C07.R3', 'decompress failure -> Err(Status::internal); prost decode failure -> map_err(from_decode_error) -> Status::internal; no unwrap')
     with R.guard('C07.R3'):
